@@ -539,3 +539,92 @@ fn c16_rt_define_font_4_a2n0() {
     kani::assume(number >= 0x100_0000);
     define_font_form!(246, number, 2, 0);
 }
+
+// ---------------------------------------------------------------------------------------------
+// Decoder totality: arbitrary bytes give operations or a documented error, never a panic.
+
+/// Decodes `arr[..len]` for every opcode in [lo, hi] (constant per call, see the concretisation rule)
+/// and every length in `lens` (constants), with all remaining bytes symbolic. Kani's panic, overflow
+/// and bounds checks are the assertion; on success the tail must be a proper suffix and truncated
+/// input must give `Truncated(opcode)`.
+fn decode_total<const CAP: usize>(lo: u8, hi: u8, min_payload: usize) {
+    let bytes: [u8; CAP] = kani::any();
+    let mut code: u16 = lo as u16;
+    let mut oks = 0u32;
+    let mut truncs = 0u32;
+    while code <= hi as u16 {
+        let mut arr = bytes;
+        arr[0] = code as u8;
+        let mut len = 1;
+        while len <= CAP {
+            let r = Op::deserialize(&arr[..len]);
+            match &r {
+                Ok(Some((_, tail))) => {
+                    assert!(tail.len() < len, "a decoded operation consumes at least its opcode");
+                    oks += 1;
+                }
+                Ok(None) => panic!("non-empty input decoded to nothing"),
+                Err(InvalidDviData::Truncated(c)) => {
+                    assert!(*c == code as u8, "truncation error names the opcode");
+                    truncs += 1;
+                }
+                Err(InvalidDviData::InvalidOpCode(c)) => {
+                    assert!(*c == code as u8 && code >= 250, "only 250..=255 are invalid opcodes");
+                }
+            }
+            std::mem::forget(r);
+            len += 1;
+        }
+        code += 1;
+    }
+    kani::cover!(oks > 0 || lo >= 250, "some input decodes (valid opcodes)");
+    kani::cover!(truncs > 0 || min_payload == 0, "some input is truncated");
+}
+
+#[kani::proof]
+#[kani::unwind(12)]
+fn c16_total_char_forms() {
+    decode_total::<6>(128, 137, 1);
+}
+
+#[kani::proof]
+#[kani::unwind(46)]
+fn c16_total_motion_forms() {
+    decode_total::<6>(143, 170, 0);
+}
+
+#[kani::proof]
+#[kani::unwind(12)]
+fn c16_total_font_forms() {
+    decode_total::<6>(235, 238, 1);
+}
+
+#[kani::proof]
+#[kani::unwind(12)]
+fn c16_total_invalid_opcodes() {
+    decode_total::<3>(250, 255, 0);
+}
+
+#[kani::proof]
+#[kani::unwind(50)]
+fn c16_total_bop_and_post() {
+    decode_total::<46>(139, 139, 44);
+}
+
+#[kani::proof]
+#[kani::unwind(32)]
+fn c16_total_begin_postamble() {
+    decode_total::<30>(248, 248, 28);
+}
+
+#[kani::proof]
+#[kani::unwind(16)]
+fn c16_total_end_postamble() {
+    decode_total::<10>(249, 249, 5);
+}
+
+#[kani::proof]
+#[kani::unwind(12)]
+fn c16_total_rule_forms() {
+    decode_total::<10>(132, 132, 8);
+}
